@@ -6,7 +6,6 @@ From Frugal.proofs Require Import GenDecParams Corollaries BitsetProofs.
 From Frugal.props Require Import Examples.
 From Frugal Require Import DisciplineChecks.
 From Frugal.proofs Require Import GenPools.
-From Frugal.proofs Require Import GenDesc.
 Import ListNotations.
 
 (* decoding a well-formed message fails with the required-field error naming field i exactly when
@@ -65,6 +64,3 @@ Proof. exact dec_params_ok_holds. Qed.
 Theorem C09_model_assumptions : pools_ok = true.
 Proof. exact pools_ok_holds. Qed.
 
-(* the descriptor construction of desc.go reads as the model assumes (DisciplineChecks.desc_ok) *)
-Theorem C09_descriptor_shape : desc_ok = true.
-Proof. exact desc_ok_holds. Qed.
